@@ -108,6 +108,18 @@ fn main() {
                          int(DateTime::<U>::from(x).into_i64())]
                 })
             });
+            // NaT -> every OPTIONAL numeric target is None, a valid instant is Some (the value itself is C15's business):
+            // the nullness of cast::<Option<i32 | u8 | u64 | usize | isize | f64 | f32>>() against is_nat
+            em.case("exact", &format!("fn=optcast unit={} class={}", uname(u), if x == NAT { "nat" } else { "valid" }),
+                &format!("DateTime<{}>({}).cast::<Option<i32|u8|u64|usize|isize|f64|f32>>().is_none()", uname(u), x),
+                || format!("(c_bool (Tevec.Model.Time.is_nat {x}) ++ c_bool (Tevec.Model.Time.is_nat {x}) ++ c_bool (Tevec.Model.Time.is_nat {x}) ++ c_bool (Tevec.Model.Time.is_nat {x}) ++ c_bool (Tevec.Model.Time.is_nat {x}) ++ c_bool (Tevec.Model.Time.is_nat {x}) ++ c_bool (Tevec.Model.Time.is_nat {x}))", x = coq_z(x as i128)), || {
+                with_unit!(u, U => {
+                    let d = DateTime::<U>::new(x);
+                    let a: Option<i32> = d.cast(); let b: Option<u8> = d.cast(); let c: Option<u64> = d.cast();
+                    let e: Option<usize> = d.cast(); let f: Option<isize> = d.cast(); let g: Option<f64> = d.cast(); let h: Option<f32> = d.cast();
+                    vec![boolc(a.is_none()), boolc(b.is_none()), boolc(c.is_none()), boolc(e.is_none()), boolc(f.is_none()), boolc(g.is_none()), boolc(h.is_none())]
+                })
+            });
             // X9: is_not_nat of the three time types, the Option<i64> view the other way round
             em.case("exact", &format!("fn=flags unit={} class={}", uname(u), if x == NAT { "nat" } else { "valid" }),
                 &format!("DateTime<{}>({}) / Time({}) / TimeDelta::from({}): is_nat, is_not_nat; into_opt_i64(from_opt_i64(Some(x))); from_opt_i64(None)", uname(u), x, x, x),
